@@ -199,7 +199,8 @@ type refPacket struct {
 	AFLen    int    // -1 none, else adaptation_field_length
 	TEI      bool
 	Disc     bool
-	UnitIdx  int // index of the unit this packet belongs to (per PID), -1 for filler
+	PCR      bool // the adaptation field (length >= 7) carries a PCR
+	UnitIdx  int  // index of the unit this packet belongs to (per PID), -1 for filler
 	LastOfUn bool
 }
 
@@ -227,8 +228,20 @@ func (p *refPacket) encode() []byte {
 			if p.Disc {
 				fl |= 0x80
 			}
+			k := 1
+			if p.PCR && p.AFLen >= 7 {
+				fl |= 0x10
+			}
 			b = append(b, fl)
-			for k := 1; k < p.AFLen; k++ {
+			if p.PCR && p.AFLen >= 7 {
+				// program_clock_reference_base(33) reserved(6) extension(9), a value derived from PID and counter
+				base := uint64(p.PID)<<16 | uint64(p.CC)<<8 | 0x55
+				ext := uint64(p.CC) * 17
+				v := base<<15 | 0x3f<<9 | ext
+				b = append(b, byte(v>>40), byte(v>>32), byte(v>>24), byte(v>>16), byte(v>>8), byte(v))
+				k += 6
+			}
+			for ; k < p.AFLen; k++ {
 				b = append(b, 0xff)
 			}
 		}
@@ -293,6 +306,7 @@ func packetiseUnit(r *Rng, u *refUnit, idx int, cc *byte, smallChunks bool) []*r
 				chunk = pl
 			} else {
 				p.AFLen = free - 1
+				p.PCR = p.AFLen >= 7 && r.Chance(1, 3)
 			}
 		}
 		p.Payload = append([]byte{}, chunk...)
@@ -543,7 +557,7 @@ func genRefStream(r *Rng, o streamOpts) *refStreamModel {
 			case 1:
 				// adaptation-field-only packet of a PID in use: counter not incremented
 				q := m.PIDs[r.Intn(len(m.PIDs))]
-				m.Packets = append(m.Packets, &refPacket{PID: q, CC: *cc[q] & 15, AFLen: 183, UnitIdx: -1})
+				m.Packets = append(m.Packets, &refPacket{PID: q, CC: *cc[q] & 15, AFLen: 183, UnitIdx: -1, Disc: r.Bool(), PCR: r.Bool()})
 				// its counter must equal the last payload packet's already emitted on that PID: recomputed below
 			case 2:
 				q := m.PIDs[r.Intn(len(m.PIDs))]
